@@ -74,6 +74,7 @@ type TxSpec struct {
 //	tick     Tick(); N pooled transactions (starting at Pick) get Lastseen back-dated by 15 days (Arg bit1:
 //	         13 days), Arg bit0 forces the expiry scan; Ring > 0 changes CFG.TXPool.RejectRecCnt first
 //	ladder   N consecutive insertions into one gap of the rank-ordered list (see ladder_test.go)
+//	sigflood one tx with N sig-op-heavy outputs (Arg: P2SH / P2WSH / P2SH-P2WSH), then N spends through Path
 //	deepreorg  a branch of empty blocks replaces the last 101+Arg blocks (deeper than the coinbase maturity)
 //	save     MempoolSave(true) + MempoolLoad(); Arg bit0: with a restart of the chain in between; Fault/Off: the
 //	         file is damaged in between (truncated at a drawn offset, a verifiable byte flipped, removed)
@@ -127,6 +128,8 @@ func genOuts(t *rapid.T, signed bool) []sim.OutSpec {
 			if signed {
 				fam = rapid.IntRange(9, 12).Draw(t, "sfam")
 			}
+		case 6: // redeem / witness scripts with many sig-ops (P2SH, P2WSH, P2SH-P2WSH)
+			fam = rapid.IntRange(13, 15).Draw(t, "hfam")
 		}
 		outs = append(outs, sim.OutSpec{Fam: fam, Share: rapid.IntRange(0, 99).Draw(t, "share"), N: rapid.IntRange(0, 5).Draw(t, "n")})
 	}
@@ -256,6 +259,7 @@ func genCase(t *rapid.T, minOps, maxOps int) Case {
 	}
 	long := rapid.IntRange(0, 11).Draw(t, "longchain") == 0
 	deep := rapid.IntRange(0, 15).Draw(t, "deep") == 0
+	sigfl := rapid.IntRange(0, 11).Draw(t, "sigflood") == 0
 
 	// mostly minOps..maxOps steps; the rare short form is what shrinking converges to
 	n := 0
@@ -330,6 +334,14 @@ func genCase(t *rapid.T, minOps, maxOps int) Case {
 				c.Ops = append(c.Ops, Op{K: "release", Pick: -1, Path: genPath(t)})
 			}
 		default:
+			if sigfl {
+				// more sig-op cost in the pool than a block may carry, admitted through one path, then a block
+				c.Ops = append(c.Ops, Op{K: "sigflood", N: rapid.IntRange(15, 24).Draw(t, "nsig"), Arg: rapid.IntRange(0, 2).Draw(t, "sfam"),
+					Path: rapid.SampledFrom([]int{0, 1, 2, 2}).Draw(t, "spath"), Pick: rapid.IntRange(0, 1<<12).Draw(t, "pick")})
+				c.Ops = append(c.Ops, Op{K: "mine", Arg: rapid.SampledFrom([]int{0, 1}).Draw(t, "marg"), DT: rapid.IntRange(0, 1199).Draw(t, "dt"), Net: rapid.Bool().Draw(t, "net")})
+				sigfl = false
+				break
+			}
 			if deep && len(c.Ops) > 8 {
 				// a reorganisation deeper than the coinbase maturity
 				c.Ops = append(c.Ops, Op{K: "deepreorg", Arg: rapid.IntRange(0, 7).Draw(t, "darg"), DT: rapid.IntRange(0, 1199).Draw(t, "dt"), Net: rapid.Bool().Draw(t, "net")})
